@@ -343,7 +343,7 @@ func (node *TopNode) resolveMerge(binding *syntax.MergeExp, t syntax.Type,
 	} else {
 		forkRefId = binding.Call.GetFqid()
 	}
-	parts, errs := node.getParts(binding.GetCall(),
+	parts, errs := node.getParts(node.mergePartCall(binding, forkRefId),
 		node.mergeMatchFork(binding, fork, forkRefId), forkRefId)
 	if len(parts) == 0 && len(errs) == 0 && binding.ForkNode == nil {
 		// Nothing in the merged value or in the inputs of the call forks
@@ -466,6 +466,50 @@ func (node *TopNode) resolveMerge(binding *syntax.MergeExp, t syntax.Type,
 		return allReady, result, err
 	}
 	panic("invalid mapping mode")
+}
+
+// mergePartCall returns the call whose parts, in the fork IDs of the node with
+// the given ID, enumerate the elements of the given merge.
+//
+// That is the merged call, unless the node does not fork over it but over
+// another call which iterates over the very same source (a pipeline mapped
+// over the merged output of a mapped stage forks in lockstep with that stage,
+// and the nodes inside it fork over the stage's call).
+func (node *TopNode) mergePartCall(binding *syntax.MergeExp,
+	id string) *syntax.CallStm {
+	call := binding.GetCall()
+	boundNode := node.allNodes[id]
+	if boundNode == nil || len(boundNode.forkIds.Table) == 0 {
+		return call
+	}
+	if _, ok := boundNode.forkIds.Table[call]; ok {
+		return call
+	}
+	over := binding.MergeOver
+	for m, ok := over.(*syntax.MergeExp); ok; m, ok = over.(*syntax.MergeExp) {
+		over = m.MergeOver
+	}
+	if _, ok := over.(*syntax.MapCallSet); !ok {
+		return call
+	}
+	ref := binding.ForkNode
+	if ref == nil {
+		for _, r := range binding.Value.FindRefs() {
+			if r.Id == id {
+				ref = r
+				break
+			}
+		}
+	}
+	if ref == nil {
+		return call
+	}
+	for _, root := range boundNode.forkRoots {
+		if i := ref.Forks[root]; i != nil && i.IndexSource() == over {
+			return root
+		}
+	}
+	return call
 }
 
 // mergeMatchFork returns the fork ID which forks of the node with the given ID
